@@ -8,7 +8,6 @@ import (
 	"os"
 	"sort"
 	"strconv"
-	"strings"
 	"sync"
 
 	"verif/checker/core"
@@ -136,22 +135,16 @@ func RunMutants(p *Prop, prog *core.Prog, base *core.Report) map[string]any {
 	if v, err := strconv.ParseInt(os.Getenv("VERIF_SEED"), 10, 64); err == nil {
 		seed = v
 	}
-	var fnames []string
-	for n := range base.Funcs {
-		fnames = append(fnames, n)
+	var fns []*core.Func
+	for f := range base.FuncObjs {
+		if f.Decl != nil && f.Decl.Body != nil {
+			fns = append(fns, f)
+		}
 	}
-	sort.Strings(fnames)
+	sort.Slice(fns, func(i, j int) bool { return fns[i].String() < fns[j].String() })
 	var sites []mutSite
-	for _, n := range fnames {
-		i := strings.LastIndex(n, ".")
-		// names are "pkg/path.T.M" or "pkg/path.F": split at the package boundary
-		pkg, name := n[:i], n[i+1:]
-		if j := strings.LastIndex(pkg, "."); j > strings.LastIndex(pkg, "/") {
-			pkg, name = pkg[:j], pkg[j+1:]+"."+name
-		}
-		if f := prog.Func(pkg, name); f != nil && f.Decl.Body != nil {
-			sites = append(sites, collectMutSites(prog, f)...)
-		}
+	for _, f := range fns {
+		sites = append(sites, collectMutSites(prog, f)...)
 	}
 	total := len(sites)
 	rnd := rand.New(rand.NewSource(seed))
@@ -165,7 +158,7 @@ func RunMutants(p *Prop, prog *core.Prog, base *core.Report) map[string]any {
 	}
 	results := make([]mutResult, len(sites))
 	var wg sync.WaitGroup
-	sem := make(chan struct{}, 4)
+	sem := make(chan struct{}, 6)
 	for i := range sites {
 		wg.Add(1)
 		sem <- struct{}{}
